@@ -1,6 +1,7 @@
 import GoNfsd.Lemmas.FileDataBridge
 import GoNfsd.Lemmas.Files
 import GoNfsd.Lemmas.MultiTree
+import GoNfsd.Lemmas.MultiShrink
 
 /-! The block maps of the many-file byte model `G` (M7d) ARE the pointer trees of the many-file
     tree model (M7m): `G`'s "one owner across files" is `MWF`'s, and one `bmap` on the trees is one
@@ -39,6 +40,46 @@ theorem mbmap_is_gensure (s : S) (roots : Nat → List Nat) (a bn : Nat) (h : MW
     by_cases hj : j < MAXB
     · simp only [hj, if_true]
       exact (mbmap_ok s roots a bn h hbn).2 b hb (posOf j) (posOf_valid j hj).1
+    · simp only [hj, if_false]
+
+theorem firstBn_posOf' (bn : Nat) : firstBn (posOf bn) = bn := by
+  unfold posOf
+  by_cases h1 : bn < NDIRECT
+  · simp only [h1, if_true, firstBn]
+  · by_cases h2 : bn - NDIRECT < NBLKBLK
+    · simp only [h1, h2, if_true, if_false, firstBn]; omega
+    · simp only [h1, h2, if_false, firstBn]
+      have := Nat.div_add_mod (bn - NDIRECT - NBLKBLK) NBLKBLK
+      omega
+
+/-- the run of `Shrink` down to `T` blocks, in M7d's words: the file blocks from `T` on are unmapped,
+    the others keep their disk block — the `map` part of `F.resize` with `T = roundUp n` -/
+theorem shrinkTo_is_unmap (s : S) (blks : List Nat) (T N j : Nat) (h : WFB s blks)
+    (hN : N ≤ MAXBLKS) (hemp : EmptyFrom s.st blks N) :
+    mapOf (shrinkTo s blks T N).1 (shrinkTo s blks T N).2 j = if T ≤ j then 0 else mapOf s blks j := by
+  obtain ⟨_, _, o3, _, _⟩ := shrinkTo_ok T N s blks h.len h.injR hN hemp
+  unfold mapOf
+  by_cases hj : j < MAXB
+  · simp only [hj, if_true]
+    rw [o3 (posOf j) (posOf_valid j hj).1, firstBn_posOf']
+  · simp only [hj, if_false]
+    split <;> rfl
+
+/-- ... and for many files: the other files' maps do not move -/
+theorem mshrink_is_gunmap (s : S) (roots : Nat → List Nat) (a T N : Nat) (h : MWF s roots)
+    (hN : N ≤ MAXBLKS) (hemp : EmptyFrom s.st (roots a) N) (b j : Nat) :
+    gmaps (shrinkTo s (roots a) T N).1 (setRoots roots a (shrinkTo s (roots a) T N).2) b j =
+      if b = a ∧ T ≤ j then 0 else gmaps s roots b j := by
+  unfold gmaps setRoots
+  by_cases hb : b = a
+  · subst hb
+    simp only [if_true, true_and]
+    exact shrinkTo_is_unmap s (roots b) T N j (h.file b) hN hemp
+  · simp only [hb, if_false, false_and]
+    unfold mapOf
+    by_cases hj : j < MAXB
+    · simp only [hj, if_true]
+      exact (mshrink_ok s roots a T N h hN hemp).2.1 b hb (posOf j) (posOf_valid j hj).1
     · simp only [hj, if_false]
 
 end GoNfsd.Model.FileData
